@@ -83,7 +83,26 @@ func (f *NullIfFunction) Execute(ctx *FunctionContext, args []any) (any, error) 
 	if reflect.DeepEqual(args[0], args[1]) {
 		return nil, nil
 	}
+	// Numbers compare by value, not by Go type: null_if(3, 3.0) is NULL although
+	// the arguments arrive as int and float64
+	if isNumericValue(args[0]) && isNumericValue(args[1]) {
+		left, err1 := cast.ToFloat64E(args[0])
+		right, err2 := cast.ToFloat64E(args[1])
+		if err1 == nil && err2 == nil && left == right {
+			return nil, nil
+		}
+	}
 	return args[0], nil
+}
+
+// isNumericValue reports whether v is of an integer or floating point type
+func isNumericValue(v any) bool {
+	switch v.(type) {
+	case int, int8, int16, int32, int64, uint, uint8, uint16, uint32, uint64, float32, float64:
+		return true
+	default:
+		return false
+	}
 }
 
 // GreatestFunction returns maximum value
